@@ -112,7 +112,8 @@ func main() {
 				}
 			}
 			desc := fmt.Sprintf(`{"leaves":%q,"features":%v}`, strings.Join(chosen, ","), withFeat)
-			fmt.Fprintf(wo, "subset %d %v %s\n", mask, withFeat, strings.Join(chosen, ","))
+			opsLine := fmt.Sprintf("nop subset %d %v %s", mask, withFeat, strings.Join(chosen, ","))
+			defer0 := func() { fmt.Fprintln(wo, opsLine) }
 			var err error
 			var pan interface{}
 			func() {
@@ -125,7 +126,8 @@ func main() {
 				err = p.Initialize(map[string]interface{}{core.ConfigPipelineDryRun: true, core.ConfigPipelineCommits: nil})
 			}()
 			fail := func(what string) {
-				fmt.Fprintln(wi, "fail")
+				defer0()
+				fmt.Fprintln(wi, "bad")
 				hv.Fail("builtin-subset", desc, what)
 				stats["fail"]++
 			}
@@ -140,6 +142,7 @@ func main() {
 				fail("initialisation succeeded although a requirement has no enabled provider")
 				continue
 			case err != nil:
+				defer0()
 				fmt.Fprintln(wi, "ok")
 				stats["refused"]++
 				continue
@@ -206,6 +209,47 @@ func main() {
 				fail(bad)
 				continue
 			}
+			// the resolved order also goes through the Lean checker Ord.orderValid (entities numbered by name)
+			entID := map[string]int{}
+			var entNames []string
+			for _, it := range items {
+				entNames = append(entNames, it.Provides()...)
+				entNames = append(entNames, it.Requires()...)
+			}
+			sort.Strings(entNames)
+			for _, e := range entNames {
+				if _, ok := entID[e]; !ok {
+					entID[e] = len(entID)
+				}
+			}
+			lst := func(es []string) string {
+				if len(es) == 0 {
+					return "-"
+				}
+				var x []string
+				for _, e := range es {
+					x = append(x, fmt.Sprint(entID[e]))
+				}
+				return strings.Join(x, ",")
+			}
+			// positions: the deployed list in name order; the order: resolved sequence
+			var deployed []string
+			for k := range pos {
+				deployed = append(deployed, k)
+			}
+			sort.Strings(deployed)
+			dpos := map[string]int{}
+			var its []string
+			for i, nme := range deployed {
+				dpos[nme] = i
+				its = append(its, lst(byName[nme].Provides())+":"+lst(byName[nme].Requires()))
+			}
+			var ord []string
+			for _, it := range items {
+				ord = append(ord, fmt.Sprint(dpos[it.Name()]))
+			}
+			opsLine = fmt.Sprintf("ord %s %s", strings.Join(its, ";"), strings.Join(ord, ","))
+			defer0()
 			fmt.Fprintln(wi, "ok")
 			stats["ok"]++
 		}
